@@ -53,12 +53,21 @@ func H16_teardown() {
 	if vrtBool("anonymous_publisher") {
 		pid = nil // a zero-length client id: the broker makes one up, the session is a clean one
 	}
+	pconn := vrtConnectPkt(pid, true)
+	switch vrtChoice("publisher_will", 4) {
+	case 1:
+		pconn = vrtConnectWithWill(pid, true, vrtWill{flag: true, topic: []byte("pw"), payload: []byte("x")})
+	case 2:
+		pconn = vrtConnectWithWill(pid, true, vrtWill{flag: true, topic: []byte("$pw"), payload: []byte("x")})
+	case 3:
+		pconn = vrtConnectWithWill(pid, true, vrtWill{flag: true, retain: true, topic: []byte("#"), payload: nil})
+	}
 	if vrtBool("publisher_connects_first") {
-		p, _ = b.connect(vrtConnectPkt(pid, true))
+		p, _ = b.connect(pconn)
 		s, _ = b.connect(vrtConnectPkt([]byte("s"), sClean))
 	} else {
 		s, _ = b.connect(vrtConnectPkt([]byte("s"), sClean))
-		p, _ = b.connect(vrtConnectPkt(pid, true))
+		p, _ = b.connect(pconn)
 	}
 	vrtExchange(s, &specPkt{Typ: specSUBSCRIBE, ID: 1, Topics: [][]byte{[]byte("to/s")}, QoS: []byte{0}})
 	vrtExchange(p, &specPkt{Typ: specSUBSCRIBE, ID: 1, Topics: [][]byte{[]byte("to/p")}, QoS: []byte{0}})
